@@ -124,7 +124,7 @@ def make_cases(rng, tier):
             cfgs = [cfgs[0]] + rng.sample(cfgs[1:], min(len(cfgs) - 1, 2))
         for kw in cfgs:
             for lay in (['c', 'readonly'] if tier == 'quick' else ['c', 'view', 'fortran', 'readonly']):
-                img = spec.get('image', rng.choice(['uint8', 'float', 'int16']))
+                img = spec.get('image', rng.choice(['uint8', 'float', 'int16', 'float64', 'uint16']))
                 supports_boxes = name not in ('CoarseDropout', 'GridDropout')
                 supports_kps = name not in ('BBoxSafeRandomCrop', 'RandomSizedBBoxSafeCrop', 'GridDropout')
                 cases.append({'name': name, 'kw': jsonable(kw), 'shape': [12, 10, 8], 'seed': rng.randint(0, 10 ** 6),
